@@ -1,0 +1,9 @@
+//go:build verif
+
+// Contracts for package math, checked by /verif/govc (comment-only; see /verif/DESIGN.md).
+package math
+
+// Overflow-checked multiplication (math/bits.Mul64).
+//@ trusted func SafeMul(x, y uint64) (r uint64, overflow bool)
+//@   ensures overflow <==> x * y > 18446744073709551615
+//@   ensures !overflow ==> r == x * y
